@@ -1119,6 +1119,19 @@ class Interp(object):
                         self.repo.method(l.cls, '__eq__', required=False) is None and self.repo.method(r.cls, '__eq__', required=False) is None \
                         and l.cls != 'slice' and r.cls != 'slice':
                     v = False       # two distinct instances of classes without __eq__: identity
+                elif isinstance(l, Obj) and isinstance(r, Obj) and (l.cls in VALUE_CLASSES or r.cls in VALUE_CLASSES):
+                    # the repository's namedtuples compare by value
+                    if l.cls != r.cls:
+                        v = False
+                    elif _surely_equal(l, r):
+                        v = True
+                    elif not _may_equal(l, r):
+                        v = False
+                    else:
+                        return None
+                elif (isinstance(l, Obj) and l.cls in VALUE_CLASSES and isinstance(r, (bool, int, float, str, bytes, list, dict))) or \
+                        (isinstance(r, Obj) and r.cls in VALUE_CLASSES and isinstance(l, (bool, int, float, str, bytes, list, dict))):
+                    v = False       # a namedtuple never equals a number, a string, a list or a dict
                 elif isinstance(l, Obj) and isinstance(r, Obj) and l.cls == r.cls == 'slice':
                     parts = [(l.fields.get(k), r.fields.get(k)) for k in ('start', 'stop', 'step')]
                     if any(_has_abstract(a) or _has_abstract(b) for a, b in parts):
